@@ -12,7 +12,11 @@ Open Scope Z_scope.
 Inductive case :=
 | CRun (exporter : N) (enabled : bool) (max_ns : Z) (cancel_at : option nat) (timed : bool)
        (script : list response) (attempts : nat) (bodies : list N) (gaps : list Z) (err handled : N)
-       (elapsed_ns : Z).
+       (elapsed_ns : Z)
+(** Throttled sequences whose delays (each below the limit, in the unit the client reads) add up beyond
+    MaxElapsedTime, then a collector that never recovers: specification only ([Spec.throttled_ok]). *)
+| CThrottled (exporter : N) (max_ns min_delay_ns : Z) (delays : list Z)
+             (attempts : nat) (bodies : list N) (gaps : list Z) (err : N) (elapsed_ns : Z).
 
 Definition flag (b : bool) (code : N) : list N := if b then [] else [code].
 
@@ -59,6 +63,8 @@ Definition check_case (c : case) : list N :=
        else if (exporter <? 3)%N && known_shape script gaps &&
                run_ok enabled max_ns cancel_at (without_http_hints script) attempts bodies gaps err handled
             then [V_KNOWN 1] else [V_SPECFAIL])
+  | CThrottled exporter max_ns min_delay_ns delays attempts bodies gaps err elapsed_ns =>
+      flag (throttled_ok max_ns min_delay_ns delays attempts bodies gaps err elapsed_ns) V_SPECFAIL
   end.
 
 Definition run (cs : list case) : list (N * N) := index_from 0 check_case cs.
